@@ -401,7 +401,9 @@ class ExcFlow:
                 info["patched_here"] = tuple(patched)
                 # keep the pre-patch key reachable for chain()
                 info["pre_key"] = k
-            out[nk] = info
+            # (two caught keys can map to the same patched key: keep the
+            # shorter chain, as everywhere else)
+            self._merge(out, {nk: info})
         return out
 
     def _exc_classes(self, e):
